@@ -588,13 +588,19 @@ def encodeCore (segs : List Segment) (error : Option Nat) (v : Int) (mask : Opti
   pure { matrix := m4, version := v, error := error', mask := mk, segments := segs }
 
 /-- `encode` after argument normalisation -/
-def encode (parts : List Part) (error : Option Nat) (version : Option Int) (mask : Option Nat)
+def encode (parts : List Part) (error : Option Nat) (version : Option Int) (mode : Option Nat) (mask : Option Nat)
     (eci : Bool) (micro : Option Bool) (boost : Bool) (eciNumber : String → Option Nat) : R Code := do
   let isMicroVer := match version with | some v => Gen.MICRO_VERSIONS.contains v | none => false
   if micro == some false && isMicroVer then throw PyErr.valueError
   if micro == some true && version.isSome && !isMicroVer then throw PyErr.valueError
   -- a mode requested for the whole content must be supported by a requested version
-  -- (checked per part by the caller for the global mode: see `encodeReq`)
+  match mode, version with
+  | some md, some v =>
+    match isModeSupported md v with
+    | none => throw PyErr.valueError
+    | some false => throw PyErr.valueError
+    | some true => pure ()
+  | _, _ => pure ()
   if error == some Gen.ERROR_LEVEL_H && (micro == some true || isMicroVer) then throw PyErr.valueError
   if eci && (micro == some true || isMicroVer) then throw PyErr.valueError
   let micro' := if eci && micro.isNone then some false else micro
